@@ -317,3 +317,49 @@ func init() {
 		return g.mkError(msg, first)
 	})
 }
+
+func init() {
+	// sync.OnceFunc / OnceValue / OnceValues: f runs once; later calls return the same result.
+	// (If f panics, every call re-panics with the same value.)
+	once := func(nres int) Intrinsic {
+		return func(g *G, fr *Frame, fn *ssa.Function, a []Value) Value {
+			f := a[0].(*Closure)
+			o := &Once{}
+			var result Value
+			var panicked *targetPanic
+			return &Closure{Name: "sync.Once*", Native: func(g *G, args []Value) Value {
+				g.schedPoint(&Op{desc: "oncefunc", obj: o, enabled: func() bool { return !o.running }})
+				if !o.done {
+					o.running = true
+					func() {
+						defer func() {
+							o.running = false
+							o.done = true
+							g.hbRelease(o)
+							if p := recover(); p != nil {
+								if tp, ok := p.(targetPanic); ok {
+									panicked = &tp
+									return
+								}
+								panic(p)
+							}
+						}()
+						result = g.callFn(f, nil, g.top, token.NoPos)
+					}()
+				} else {
+					g.hbAcquire(o)
+				}
+				if panicked != nil {
+					panic(*panicked)
+				}
+				if nres == 0 {
+					return nil
+				}
+				return result
+			}}
+		}
+	}
+	reg("sync.OnceFunc", once(0))
+	reg("sync.OnceValue", once(1))
+	reg("sync.OnceValues", once(2))
+}
